@@ -11,7 +11,7 @@ import (
 
 func init() {
 	register(&propDef{
-		ID: "C07",
+		ID:          "C07",
 		Explanation: "Decides pairing, provenance and counter agreement — the structural reasons the source map is right — for ALL sites: R1 on every emission path of the generator (GEM), every write of a Go expression's text is the first text of its write and is immediately followed by sourceMap.Add(that same expression, the range returned by that very write), and every Add is preceded by such a write; R2 no parser.Expression value is fabricated inside the generator (expressions and their ranges come from the parser); R3 in SourceMap.Add the source/target column and index counters advance by the same rune length, both index counters take the newline step, and every source→target store has the mirrored target→source store; in the range writer's write, index and column advance by the same length and a newline resets the column and increments the line; R4 symbol ranges run from the first emission's start to the last emission's end with nothing emitted after registration; R5 the range writer returns the range of the text argument alone. NOT decided: byte equality of mapped positions on concrete files.",
 		Assumptions: []string{"parser ranges are faithful (C06)", "utf8.RuneLen/EncodeRune agree on rune length"},
 		Trusted:     []string{"go/types", "x/tools go/packages"},
@@ -77,11 +77,11 @@ func counterAgreement(c *Ctx, rule string) {
 		key := funcKey(pp, fd)
 		// (a) mirrored stores
 		type store struct {
-			m          string
-			k1, k2     string
-			i, l, col  string
-			pos        token.Pos
-			block      *ast.BlockStmt
+			m         string
+			k1, k2    string
+			i, l, col string
+			pos       token.Pos
+			block     *ast.BlockStmt
 		}
 		var stores []store
 		var visit func(b *ast.BlockStmt)
